@@ -1,10 +1,59 @@
 import Driver.Loop
-import Driver.C01
 import SquidModel.Relay.Request
 import SquidModel.Gen.RelayFlags
 open SquidModel SquidModel.Relay.Request
 
 namespace Driver.C02
+
+def fnv (b : Bytes) : UInt64 :=
+  b.foldl (fun h x => (h ^^^ x.toUInt64) * 0x100000001b3) 0xcbf29ce484222325
+
+def hex64 (x : UInt64) : String :=
+  String.ofList ((List.range 16).map fun i => Bytes.hexDigit ((x.toNat >>> (4 * (15 - i))) % 16))
+
+/-- the harness's body generator: x' = 1664525 x + 1013904223 mod 2^32, octet = x' >> 24 -/
+def genBody (n seed : Nat) : Bytes :=
+  let rec go : Nat → UInt32 → List UInt8 → List UInt8
+    | 0, _, acc => acc.reverse
+    | k + 1, x, acc =>
+      let x' := x * 1664525 + 1013904223
+      go k x' ((x' >>> 24).toUInt8 :: acc)
+  go n (UInt32.ofNat ((seed * 2654435761 + 12345) % 4294967296)) []
+
+inductive Piece
+  | d (n : Nat)
+  | x (b : Bytes)
+
+def parsePiece (s : String) : Option Piece :=
+  match s.toList with
+  | 'd' :: r => (String.ofList r).toNat?.map Piece.d
+  | 'x' :: r => (Bytes.ofHexChars r).map Piece.x
+  | _ => none
+
+def parsePieces (s : String) : Option (List Piece) :=
+  if s == "-" then some [] else (s.splitOn ",").mapM parsePiece
+
+def wireOf (ps : List Piece) (seed : Nat) : Bytes :=
+  let total := ps.foldl (fun a p => match p with | .d n => a + n | .x _ => a) 0
+  let B := genBody total seed
+  let rec go : List Piece → Bytes → List Bytes → Bytes
+    | [], _, acc => acc.reverse.flatten
+    | .d n :: r, b, acc => go r (b.drop n) (b.take n :: acc)
+    | .x y :: r, b, acc => go r b (y :: acc)
+  go ps B []
+
+def natList (s : String) : Option (List Nat) :=
+  if s == "-" then some [] else (s.splitOn ",").mapM String.toNat?
+
+/-- cut `b` at the given increasing offsets -/
+def splitAt (b : Bytes) (cuts : List Nat) : List Bytes :=
+  let rec go : List Nat → Nat → Bytes → List Bytes → List Bytes
+    | [], _, rest, acc => (rest :: acc).reverse
+    | c :: cs, pos, rest, acc =>
+      if c > pos ∧ c - pos < rest.length then go cs c (rest.drop (c - pos)) (rest.take (c - pos) :: acc)
+      else go cs pos rest acc
+  go cuts 0 b []
+
 
 /-- after every event: deliver what is deliverable (writes, notifications, space) until nothing changes -/
 def settle : Nat → Sys → Sys
@@ -24,14 +73,17 @@ def parseCfr (t : String) : Option CFr :=
 def handle (line : String) : String :=
   match Driver.words line with
   | [method, cfr, seed, pieces, cut, fin, _hsplit, segs, _stall, expect, obeh] =>
-    match parseCfr cfr, seed.toNat?, Driver.C01.parsePieces pieces, (if cut == "-" then some none else cut.toNat?.map some), Driver.C01.natList segs with
+    match parseCfr cfr, seed.toNat?, parsePieces pieces, (if cut == "-" then some none else cut.toNat?.map some), natList segs with
     | some cfr, some seed, some ps, some cut, some segs =>
       if (method != "POST" && method != "PUT") || (fin != "keep" && fin != "fin" && fin != "rst") || (expect != "0" && expect != "1") || obeh != "ok"
          || (cut.isNone && fin != "keep") then "bad-op"
+      else if cfr == .cl 0 then
+        -- Content-Length: 0: no body is expected, no BodyPipe exists (clientProcessRequest: expectBody = chunked || content_length > 0)
+        s!"o: fr=cl:0 len=0 fnv={hex64 (fnv [])} end=complete n=1 | c: st=200"
       else
-        let wire := Driver.C01.wireOf ps seed
+        let wire := wireOf ps seed
         let sent := match cut with | some k => wire.take k | none => wire
-        let segList := Driver.C01.splitAt sent segs
+        let segList := splitAt sent segs
         let fuel := sent.length + 8
         let s0 := Sys.init cfr true Gen.RelayFlags.bodyPipeMax
         -- the first segment arrives with the header (with Expect: 100-continue the header arrives alone); forwarding starts after it
@@ -41,11 +93,11 @@ def handle (line : String) : String :=
         let s2 := rest.foldl (fun s seg => settle fuel (step s (.client seg))) s1
         let s3 := if fin == "keep" then s2 else settle fuel (step s2 .clientGone)
         let body := s3.upBody
-        if !s3.started then s!"o: fr=none len=0 fnv={Driver.C01.hex64 (Driver.C01.fnv [])} end=none n=0 | c: st=none"
+        if !s3.started then s!"o: fr=none len=0 fnv={hex64 (fnv [])} end=none n=0 | c: st=none"
         else
           let fr := if s3.upChunked then "chunked" else match s3.size with | some n => s!"cl:{n}" | none => "?"
           let e := if s3.upComplete && s3.done then "complete" else if s3.aborted then "eof" else "timeout"
-          s!"o: fr={fr} len={body.length} fnv={Driver.C01.hex64 (Driver.C01.fnv body)} end={e} n=1 | c: st=" ++ (if e == "complete" then "200" else "none")
+          s!"o: fr={fr} len={body.length} fnv={hex64 (fnv body)} end={e} n=1 | c: st=" ++ (if e == "complete" then "200" else "none")
     | _, _, _, _, _ => "bad-op"
   | _ => "bad-op"
 
